@@ -34,9 +34,18 @@ import (
 
 func init() {
 	registerObserver([]string{"C23"}, func(s *Sim) Observer { return newAppStorageObs(s) })
-	nontrivialFor["C23"] = func(s *Sim) bool {
-		return s.stats["c23.boxes_counted"] > 0 && s.stats["c23.state_entries_counted"] > 0 && s.stats["c23.app_accounts_with_boxes_checked"] > 0
+	propBias["C23"] = "apps"
+	kindRemap["apps"] = func(g *Gen, kind int) int {
+		if g.n(2) == 0 {
+			return 64 + g.n(34) // the application kinds of Gen.one()
+		}
+		return kind
 	}
+}
+
+// Nontrivial implements NontrivialJudge.
+func (o *appStorageObs) Nontrivial(s *Sim) bool {
+	return s.stats["c23.boxes_counted"] > 0 && s.stats["c23.state_entries_counted"] > 0 && s.stats["c23.app_accounts_with_boxes_checked"] > 0
 }
 
 const labDispatch = `txna ApplicationArgs 0
